@@ -151,6 +151,24 @@ pub trait ErrorBounds: Round {
         -> (FBig<Self, B>, FBig<Self, B>, bool, bool);
 }
 
+/// The distance from `f` to the next float towards zero (with the same precision). It's the same as
+/// `f.ulp()`, except when the significand is a power of the base, where the floats below are denser.
+fn ulp_towards_zero<R: Round, const B: Word>(f: &FBig<R, B>) -> FBig<R, B> {
+    let mut ulp = f.ulp();
+    if f.repr.significand.is_one() || f.repr.significand == IBig::NEG_ONE {
+        // the representation is normalized, so the significand is a power of B only if it's one
+        ulp.repr.exponent -= 1;
+    }
+    ulp
+}
+
+/// Test if the last digit of the significand (with full precision) is even
+fn is_last_digit_even<R: Round, const B: Word>(f: &FBig<R, B>) -> bool {
+    // when the significand has less digits than the precision, it's padded with zeros
+    // (i.e. multiplied by a power of B, which only changes the parity if B is even)
+    !f.repr.significand.bit(0) || (B % 2 == 0 && f.repr.digits() < f.context.precision)
+}
+
 impl Round for mode::Zero {
     type Reverse = mode::Away;
 
@@ -224,8 +242,8 @@ impl ErrorBounds for mode::Away {
             (FBig::ZERO, FBig::ZERO, true, true)
         } else {
             match f.repr().sign() {
-                Sign::Positive => (f.ulp(), FBig::ZERO, false, true),
-                Sign::Negative => (FBig::ZERO, f.ulp(), true, false),
+                Sign::Positive => (ulp_towards_zero(f), FBig::ZERO, false, true),
+                Sign::Negative => (FBig::ZERO, ulp_towards_zero(f), true, false),
             }
         }
     }
@@ -254,7 +272,10 @@ impl ErrorBounds for mode::Down {
     fn error_bounds<const B: Word>(
         f: &FBig<Self, B>,
     ) -> (FBig<Self, B>, FBig<Self, B>, bool, bool) {
-        (FBig::ZERO, f.ulp(), true, false)
+        match f.repr().sign() {
+            Sign::Positive => (FBig::ZERO, f.ulp(), true, false),
+            Sign::Negative => (FBig::ZERO, ulp_towards_zero(f), true, false),
+        }
     }
 }
 
@@ -281,7 +302,10 @@ impl ErrorBounds for mode::Up {
     fn error_bounds<const B: Word>(
         f: &FBig<Self, B>,
     ) -> (FBig<Self, B>, FBig<Self, B>, bool, bool) {
-        (f.ulp(), FBig::ZERO, false, true)
+        match f.repr().sign() {
+            Sign::Positive => (ulp_towards_zero(f), FBig::ZERO, false, true),
+            Sign::Negative => (f.ulp(), FBig::ZERO, false, true),
+        }
     }
 }
 
@@ -332,15 +356,17 @@ impl ErrorBounds for mode::HalfAway {
         let mut half_ulp = f.ulp();
         half_ulp.repr.exponent -= 1;
         half_ulp.repr.significand = UBig::from_word((B + 1) / 2).into(); // ceil division
+        let mut half_ulp_inner = ulp_towards_zero(f);
+        half_ulp_inner.repr.exponent -= 1;
+        half_ulp_inner.repr.significand = UBig::from_word((B + 1) / 2).into(); // ceil division
 
-        let (incl_l, incl_r) = if f.repr.is_zero() {
-            (false, false)
+        if f.repr.is_zero() {
+            (half_ulp.clone(), half_ulp, false, false)
         } else if f.repr.sign() == Sign::Negative {
-            (false, true)
+            (half_ulp, half_ulp_inner, false, true)
         } else {
-            (true, false)
-        };
-        (half_ulp.clone(), half_ulp, incl_l, incl_r)
+            (half_ulp_inner, half_ulp, true, false)
+        }
     }
 }
 
@@ -392,9 +418,16 @@ impl ErrorBounds for mode::HalfEven {
         let mut half_ulp = f.ulp();
         half_ulp.repr.exponent -= 1;
         half_ulp.repr.significand = UBig::from_word((B + 1) / 2).into(); // ceil division
+        let mut half_ulp_inner = ulp_towards_zero(f);
+        half_ulp_inner.repr.exponent -= 1;
+        half_ulp_inner.repr.significand = UBig::from_word((B + 1) / 2).into(); // ceil division
 
-        let incl = f.repr.significand.bit(0);
-        (half_ulp.clone(), half_ulp, incl, incl)
+        // the ties are rounded to this number only if its last digit is even
+        let incl = is_last_digit_even(f);
+        match f.repr.sign() {
+            Sign::Positive => (half_ulp_inner, half_ulp, incl, incl),
+            Sign::Negative => (half_ulp, half_ulp_inner, incl, incl),
+        }
     }
 }
 
